@@ -17,7 +17,7 @@ PROFILE = {'weights': {'rp_create': 30, 'rp_update': 40, 'rp_delete': 14, 'inv_s
                        'alloc_delete': 1, 'reshape': 0},
            'n_rps': 8, 'footprint': ['rps']}
 
-RACES = {'n_rps': 7, 'setup_ops': 18, 'picker': 'tree', 'model': False,
+RACES = {'n_rps': 7, 'setup_ops': 18, 'picker': 'tree', 'model': True,
          'scenarios': ['create-vs-move', 'create-vs-unparent', 'create-vs-delete', 'move-vs-move', 'move-vs-delete'],
          'setup_weights': {'rp_create': 40, 'rp_update': 10, 'rp_delete': 1, 'alloc_put': 4, 'inv_set': 6, 'rc_rename': 0,
                            'rc_delete': 0, 'trait_delete': 0}}
